@@ -336,11 +336,17 @@ CHECKS["C03"] = (
     "That member i equals the scalar run numerically, and weighted means, are not decided.",
 )
 
-NOT_APPLICABLE = {
-    "C25": "consistency of each parametrization's real- and reciprocal-space forms is an analytic Fourier-"
-           "transform identity between tabulated-coefficient kernels plus monotonicity over table data; no "
-           "structural necessary condition is visible in the shape of the code, and a numerical comparison would "
-           "be a runtime test, not static analysis",
-}
+CHECKS["C25"] = (
+    "alias/ownership rule over reaching definitions for the stored coefficient tables in every scaled_parameters "
+    "accessor; key-set agreement between each parametrization's function table and its scaled-parameter table",
+    "Claims two structural necessary conditions only: computing one form of an element never modifies the stored "
+    "table the other forms are computed from (an in-place update is applied to a private copy, never to an alias of "
+    "self.parameters[...]), and every offered function has scaled parameters. The analytic content of the property "
+    "is NOT decided by this check.",
+    "That the real-space and reciprocal-space kernels are a Fourier pair, positivity and monotonicity are analytic / "
+    "numerical and not decidable statically; see DESIGN.md section 3.",
+)
+
+NOT_APPLICABLE = {}
 
 CLAIMED = sorted(CHECKS)
